@@ -9,20 +9,25 @@ Definition stamps (p i : nat) : nat := 10 * p + i.
 
 (* module 0; a complete run on input 1 ... *)
 Definition full_run (ci : inp) : round :=
-  {| r_cur := fun _ => ci; r_shape := Seq [[0]]; r_fail := never; r_stamp := fun p i => 100 * ci + i;
+  {| r_cur := fun _ => ci; r_touch := []; r_shape := Seq [[0]]; r_fail := never; r_stamp := fun p i => 100 * ci + i;
      r_crash := fun _ => 1000; r_shard := fun _ => 0 |}.
 (* ... an edit (input 2) and a run killed after n store operations *)
 Definition killed_run (ci : inp) (n : nat) : round :=
-  {| r_cur := fun _ => ci; r_shape := Seq [[0]]; r_fail := never; r_stamp := fun p i => 100 * ci + i;
+  {| r_cur := fun _ => ci; r_touch := []; r_shape := Seq [[0]]; r_fail := never; r_stamp := fun p i => 100 * ci + i;
      r_crash := fun _ => n; r_shard := fun _ => 0 |}.
 (* the same in a worker of a parallel build *)
 Definition killed_worker (ci : inp) (n : nat) : round :=
-  {| r_cur := fun _ => ci; r_shape := Par [[[[0]]]]; r_fail := never; r_stamp := fun p i => 100 * ci + i;
+  {| r_cur := fun _ => ci; r_touch := []; r_shape := Par [[[[0]]]]; r_fail := never; r_stamp := fun p i => 100 * ci + i;
      r_crash := fun _ => n; r_shard := fun _ => 0 |}.
 (* a complete run in which step i (a write) fails *)
 Definition failing_run (ci : inp) (i : nat) : round :=
-  {| r_cur := fun _ => ci; r_shape := Seq [[0]]; r_fail := fun _ j => Nat.eqb i j; r_stamp := fun p j => 100 * ci + j;
+  {| r_cur := fun _ => ci; r_touch := []; r_shape := Seq [[0]]; r_fail := fun _ j => Nat.eqb i j; r_stamp := fun p j => 100 * ci + j;
      r_crash := fun _ => 1000; r_shard := fun _ => 0 |}.
+
+(* a run in which step i fails (write returns False / remove raises) and which is killed after n steps *)
+Definition fail_and_kill (ci : inp) (i n : nat) : round :=
+  {| r_cur := fun _ => ci; r_touch := []; r_shape := Seq [[0]]; r_fail := fun _ j => Nat.eqb i j; r_stamp := fun p j => 100 * ci + j;
+     r_crash := fun _ => n; r_shard := fun _ => 0 |}.
 
 Lemma wf1 : forall r1, r_shape r1 = Seq [[0]] \/ r_shape r1 = Par [[[[0]]]] -> NoDup (shape_mods (r_shape r1)).
 Proof. intros r1 [H|H]; rewrite H; simpl; repeat constructor; simpl; tauto. Qed.
@@ -57,7 +62,7 @@ Lemma refuted_e70354f_failed_write : ~ write_is_optional_for protocol_e70354f.
 Proof.
   intro H. specialize (H idn idn SQL w_f2_fail).
   assert (W : Forall (fun r => NoDup (shape_mods (r_shape r))) w_f2_fail) by (repeat constructor; simpl; tauto).
-  assert (W2 : Forall (fun r => forall p, r_crash r p >= length (nth p (procs_of protocol_e70354f (r_shape r)) [])) w_f2_fail).
+  assert (W2 : Forall (fun r => forall p, r_crash r p >= length (nth p (procs_of protocol_e70354f (r_touch r) (r_shape r)) [])) w_f2_fail).
   { apply Forall_cons; [|apply Forall_cons; [|apply Forall_nil]]; intros p;
     destruct p as [|[|p]]; cbn; lia. }
   specialize (H W W2 (fun _ : mid => 2) [0]). vm_compute in H. discriminate H.
@@ -84,7 +89,10 @@ Ltac refute_any :=
         | refute_with [full_run 1; killed_run 2 4] FS 2 | refute_with [full_run 1; killed_run 2 5] FS 2
         | refute_with [full_run 1; killed_worker 2 3] FS 2 | refute_with [full_run 1; killed_worker 2 4] FS 2
         | refute_with [full_run 1; killed_worker 2 6] FS 2 | refute_with [full_run 1; killed_worker 2 7] FS 2
-        | refute_with [full_run 1; failing_run 2 0] FS 2 | refute_with [full_run 1; failing_run 2 2] FS 2
+        | refute_with [full_run 1; failing_run 2 0] FS 2 | refute_with [full_run 1; failing_run 2 1] FS 2 | refute_with [full_run 1; failing_run 2 2] FS 2
         | refute_with [full_run 1; failing_run 2 4] FS 2 | refute_with [full_run 1; failing_run 2 5] FS 2
+        | refute_with [full_run 1; fail_and_kill 2 0 5] FS 2 | refute_with [full_run 1; fail_and_kill 2 1 5] FS 2
+        | refute_with [full_run 1; fail_and_kill 2 0 6] FS 2 | refute_with [full_run 1; fail_and_kill 2 1 6] FS 2
+        | refute_with [full_run 1; fail_and_kill 2 0 3] FS 2 | refute_with [full_run 1; fail_and_kill 2 1 4] FS 2
         | refute_with [full_run 1; killed_run 2 1; full_run 1] FS 1 | refute_with [full_run 1; killed_run 2 3; full_run 1] FS 1
         | refute_with [full_run 1; failing_run 2 2; full_run 1] FS 1 | refute_with [full_run 1; failing_run 2 4; full_run 1] FS 1 ].
